@@ -120,13 +120,13 @@ def structure(circ, rc, validity, inputs):
         problems.append("max_reg_count %d < highest register + 1 = %d (ssa %s)" % (rc.max_reg, hi + 1, circ.to_text()[:200]))
     if rc.max_reg > wires:
         problems.append("max_reg_count %d exceeds the number of wires %d" % (rc.max_reg, wires))
-    k = 0
-    for p, n in enumerate(circ.inputs):
-        for i in range(n):
-            inst = rc.insts[k] if k < len(rc.insts) else None
-            if inst is None or inst[0] != "I" or inst[1] != k or inst[2] != p or inst[3] != i:
-                problems.append("instruction %d is %s, expected Input{party %d, input %d} into register %d" % (k, inst, p, i, k))
-            k += 1
+    # "loads every party's inputs in order": the Input instructions, in program order, are exactly the (party, index)
+    # pairs in ascending order, each once. (Which registers they load into and where they sit between the other
+    # instructions is left to the allocator; the functional query covers that.)
+    want = [(p, i) for p, n in enumerate(circ.inputs) for i in range(n)]
+    got = [(inst[2], inst[3]) for inst in rc.insts if inst[0] == "I"]
+    if got != want:
+        problems.append("Input instructions load %s, expected every party's inputs in order %s (ssa %s)" % (got[:12], want[:12], circ.to_text()[:200]))
     if len(rc.outputs) != len(circ.outputs):
         problems.append("%d output registers for %d output gates" % (len(rc.outputs), len(circ.outputs)))
     # definedness: a register must have been written before it is read (checked on the simulation)
